@@ -125,3 +125,8 @@ func VerifLoggerQueue(l *Logger) int { return len(l.logchan) }
 
 // VerifReqId gives the harness a stable identity for a request in hook args.
 func (req *SrvReq) VerifTag() uint16 { return req.Tc.Tag }
+
+// VerifReqBits returns the request status bits (flush, work, responded, saved).
+func VerifReqBits() (flush, work, responded, saved int) {
+	return int(reqFlush), int(reqWork), int(reqResponded), int(reqSaved)
+}
